@@ -387,6 +387,67 @@ pub fn run(prop: &str, tier: &str, replay: Option<&str>) -> i32 {
         });
         rep.add(sec);
     }
+    // 7. DER lengths around the powers of two (buffer and slab sizes an encoder might work in): certificate, CSR and CRL
+    {
+        let exps: Vec<u32> = if thorough { (10..=20).collect() } else { (10..=17).collect() };
+        let w = 52i64;
+        // overhead of each kind at a payload of 2^e bytes, measured once so that the window is centred on the boundary
+        let build = |kind: u8, payload: usize| -> Option<(String, Vec<u8>, &'static str)> {
+            let mut st = CertState::default();
+            st.serial = Some(vec![7]);
+            st.custom_exts = vec![CustomExtSpec { oid: vec![1, 2, 3, 4], critical: false, content: refmodel::der::octet(&vec![0x5a; payload]), acme: false }];
+            match kind {
+                0 => guarded(|| to_params(&st).unwrap().self_signed(&kp)).ok()?.ok().map(|c| (c.pem(), c.der().to_vec(), "CERTIFICATE")),
+                1 => {
+                    st.serial = None;
+                    let csr = guarded(|| to_params(&st).unwrap().serialize_request(&kp)).ok()?.ok()?;
+                    Some((csr.pem().ok()?, csr.der().to_vec(), "CERTIFICATE REQUEST"))
+                }
+                _ => {
+                    // many revoked entries (13 bytes of serial each) + a URI that takes up the remainder
+                    let per = 32usize; // one entry: SEQUENCE { INTEGER of 13 bytes, UTCTime } = 32 bytes
+                    let n = payload / per;
+                    let crl_st = CrlState { revoked: (0..n).map(|i| RevokedSpec { serial: vec![1, (i >> 16) as u8, (i >> 8) as u8, i as u8, 9, 9, 9, 9, 9, 9, 9, 9, 9], time: TimeSpec::ymd(2023, 1, 1), reason: None, invalidity: None }).collect(), idp: Some(IdpSpec { uris: vec!["u".repeat(payload % per + 1)], scope: None }), ..CrlState::default() };
+                    let crl = guarded(|| to_crl_params(&crl_st).unwrap().signed_by(&issuer.cert, &issuer.key)).ok()?.ok()?;
+                    Some((crl.pem().ok()?, crl.der().to_vec(), "X509 CRL"))
+                }
+            }
+        };
+        let mut cases: Vec<(u8, usize)> = Vec::new();
+        for kind in 0..3u8 {
+            for e in &exps {
+                let b = 1usize << e;
+                let Some((_, der, _)) = build(kind, b) else { continue };
+                let ov = der.len() as i64 - b as i64;
+                for d in -w..=w {
+                    let pl = b as i64 - ov + d;
+                    if pl > 0 {
+                        cases.push((kind, pl as usize));
+                    }
+                }
+            }
+        }
+        let hit = std::sync::Mutex::new(std::collections::BTreeSet::<(u8, usize)>::new());
+        let sec = Section::new("sweep/lengths around powers of two", &format!("certificate (custom extension), CSR (requested extension) and CRL (revoked entries + URI) whose DER length runs through about 2^e - {w} ..= 2^e + {w} for e in {:?}: strict envelope, 64-character lines, decoded bytes == DER", exps)).with_deadline(if thorough { 900 } else { 40 });
+        run::sweep_cases(&sec, &cases, &|c| format!("kind#{} payload={}", c.0, c.1), &|c| {
+            let mut out = Outcome::default();
+            if let Some((pem, der, label)) = build(c.0, c.1) {
+                hit.lock().unwrap().insert((c.0, der.len()));
+                check_pem(label, &pem, label, &der, &mut out.findings);
+                out.digest = fnv(&(der.len() as u64).to_be_bytes()) ^ (c.0 as u64);
+                out.transitions = 2;
+            } else {
+                out.unexpected_err = Some("not generated".into());
+            }
+            out
+        });
+        // which exact boundary lengths were produced (reported, not required: the CRL's length moves in steps)
+        let h = hit.lock().unwrap();
+        let exact: Vec<String> = (0..3u8).flat_map(|k| exps.iter().map(move |e| (k, 1usize << e))).filter(|(k, b)| h.contains(&(*k, *b)) && h.contains(&(*k, *b - 1)) && h.contains(&(*k, *b + 1))).map(|(k, b)| format!("{}:{}", k, b)).collect();
+        rep.extra.insert("power_of_two_lengths_hit_exactly_with_both_neighbours".into(), serde_json::json!(exact));
+        drop(h);
+        rep.add(sec);
+    }
     // residue coverage is required, not hoped for
     let res = residues48.lock().unwrap();
     let mut cov = serde_json::Map::new();
